@@ -61,6 +61,14 @@ pub fn c11_case(inp: &ExecInput, lazy: bool, rng_pick: u64) -> Option<Case> {
             }
         }
     }
+    // "polled at least once per match in lazy mode", judged on the implementation alone: a successful lazy run has at least
+    // as many per-match polls as the merged file query has matches on the tree
+    let mut per_match_bad: Option<String> = None;
+    if lazy { if let Obs::Ok(_) = obs {
+        let matches = raw_matches(file.query.as_ref().unwrap(), &tree, &info).len();
+        let polls = flag.trace.borrow().iter().filter(|s| **s == "processing matches").count();
+        if polls < matches { per_match_bad = Some(format!("{} matches of the merged query but only {} per-match polls", matches, polls)); }
+    } }
     // samples checked in the model as well: first, last, and two pseudo-random indices
     let mut samples: Vec<(u64, u32)> = Vec::new();
     if let Obs::Ok(_) = obs {
@@ -74,10 +82,10 @@ pub fn c11_case(inp: &ExecInput, lazy: bool, rng_pick: u64) -> Option<Case> {
     let model = format!("c11_verdict ({}) ({}) {} {} {}", tree_term(&info), r,
         coq_list(&trace.iter().map(|x| x.to_string()).collect::<Vec<_>>()), obs.coq(),
         coq_list(&samples.iter().map(|(k, l)| format!("({}, {})", k, l)).collect::<Vec<_>>()));
-    let verdict = match &direct_bad { Some(_) => "30".to_string(), None => model };
+    let verdict = match (&direct_bad, &per_match_bad) { (Some(_), _) => "30".to_string(), (None, Some(_)) => "31".to_string(), (None, None) => model };
     let mut replay = input_json(inp);
     replay["lazy"] = json!(lazy);
-    replay["impl"] = json!({"polls": n, "outcome": obs.class(), "direct_violation": direct_bad.as_ref().map(|(k, w)| format!("flag failing from poll {}: {}", k, w))});
+    replay["impl"] = json!({"polls": n, "outcome": obs.class(), "direct_violation": direct_bad.as_ref().map(|(k, w)| format!("flag failing from poll {}: {}", k, w)), "per_match_violation": per_match_bad});
     let mut tags = vec![format!("mode:{}", if lazy { "lazy" } else { "strict" }), format!("outcome:{}", obs.class()), format!("polls:{}", (n / 20) * 20)];
     for l in [1u32, 2, 3, 4, 5, 6] { if trace.contains(&l) { tags.push(format!("label:{}", l)); } }
     Some(Case { verdict, detail: format!("c11_detail ({}) ({})", tree_term(&info), r), key: fnv(&format!("{}|{}|{}", inp.dsl, inp.src, lazy)),
@@ -474,7 +482,8 @@ pub fn churn_stanza(rng: &mut Rng, nglobals: usize) -> String {
             let own: Vec<(usize, usize)> = edges.iter().filter(|e| e.0 == a).cloned().collect();
             let (x, y) = if own.is_empty() || rng.chance(10) { *rng.pick(&edges) } else { *rng.pick(&own) };
             let name = rng.pick(&["ea", "eb", "ec", "keep"]);
-            let v = if rng.chance(85) { format!("\"{}-{}-{}\"", names[x], names[y], name) } else { format!("{}", rng.below(2)) };
+            // `#null` is a VALUE like any other: an attribute holding it is present (re-assigning another value is a conflict)
+            let v = if rng.chance(14) { "#null".to_string() } else if rng.chance(85) { format!("\"{}-{}-{}\"", names[x], names[y], name) } else { format!("{}", rng.below(2)) };
             body.push_str(&format!("  attr ({} -> {}) {} = {}\n", names[x], names[y], name, v));
         }
     }
@@ -488,7 +497,7 @@ pub fn c09_gen(rng: &mut Rng, n: usize) -> Vec<Case> {
         tries += 1;
         let nodes = if rng.chance(25) { 0 } else { 1 + rng.below(4) };
         let mut init = Init { nodes, nattrs: vec![], edges: vec![] };
-        for i in 0..nodes { if rng.chance(60) { init.nattrs.push((i as u32, (*rng.pick(&["keep", "dup", "name"])).to_string(), GV::Int(rng.below(3) as u32))); } }
+        for i in 0..nodes { if rng.chance(60) { init.nattrs.push((i as u32, (*rng.pick(&["keep", "dup", "name"])).to_string(), if rng.chance(20) { GV::Null } else { GV::Int(rng.below(3) as u32) })); } }
         for _ in 0..rng.below(nodes * 2 + 1) { if nodes > 0 {
             let (a, b) = (rng.below(nodes) as u32, rng.below(nodes) as u32);
             if !init.edges.iter().any(|e| e.0 == a && e.1 == b) { init.edges.push((a, b, if rng.chance(70) { vec![("keep".to_string(), GV::Int(1))] } else { vec![] })); }
